@@ -208,6 +208,7 @@ impl Check for C06 {
         if !cx.case(SUB_SETUP) {
             return;
         }
+        let t_unit = std::time::Instant::now();
         let mut runner = Runner::new();
         let listed = known::listed_matchers();
         let mut per_finding: HashMap<String, u64> = HashMap::new();
@@ -262,6 +263,10 @@ impl Check for C06 {
                     compiled += 1;
                 } else if o.viol.is_none() {
                     reports += 1;
+                    if info["expect_compiles"] == true {
+                        cx.count("seed_invalid", 1);
+                        cx.note(format!("seed {} is expected to be a valid program but was rejected", info["seed"]));
+                    }
                 }
                 obs = Some(o);
             }
@@ -310,6 +315,7 @@ impl Check for C06 {
         cx.count("compiled_ok", compiled);
         cx.count("error_reports_ok", reports);
         cx.count(&format!("cases:{}", layer.name()), states);
+        cx.count(&format!("cpu_ms:{}", layer.name()), t_unit.elapsed().as_millis() as u64);
     }
 
     fn describe(&self, cfg: &Cfg, unit: usize, sub: u64) -> Value {
@@ -371,6 +377,15 @@ impl Check for C06 {
     }
 
     fn finish(&self, _cfg: &Cfg, agg: &mut Aggregate) {
+        // L3 enumerates deviations from VALID programs: if one of the harness' own seeds no
+        // longer compiles, the layer does not mean what it says (machinery error, not a verdict)
+        if agg.counter("seed_invalid") > 0 {
+            agg.machinery_errors.push(format!(
+                "{} of the harness' own seed programs (m-*, s-*) were rejected by the compiler: {:?}",
+                agg.counter("seed_invalid"),
+                agg.notes
+            ));
+        }
         // triage aid: C06_DUMP=<file> writes every literal violation as one JSON line
         if let Ok(path) = std::env::var("C06_DUMP") {
             let mut out = String::new();
